@@ -15,6 +15,15 @@ for m in selftest/mutants/*.patch; do
   for p in $props; do
     n=$((n+1))
     out=$(VERIF_REPO="$d" VERIF_EVIDENCE_DIR="$d/.ev" VERIF_REPLAY_DIR="$d/.rp" ./check "$p" quick 2>&1); rc=$?
+    if grep -q "^# expect: engine-error" "$m"; then
+      # vacuity canary: a contradictory assumed contract must be reported as an engine error, not as success
+      if [ $rc -eq 2 ] && echo "$out" | grep -q "^ENGINE-ERROR: vacuous"; then
+        echo "killed   $(basename $m) by $p: $(echo "$out" | grep -m1 '^ENGINE-ERROR' | cut -c1-160)"
+      else
+        echo "SURVIVED $(basename $m) under $p (exit $rc; vacuity not reported)"; fail=1
+      fi
+      continue
+    fi
     if [ $rc -eq 1 ] && echo "$out" | grep -q "^VIOLATION property=$p"; then
       echo "killed   $(basename $m) by $p: $(echo "$out" | grep -m1 '^  obligation' | cut -c1-160)"
     else
